@@ -177,14 +177,42 @@ def shard(ctx, job):
     run_random(ctx, job['n'])
 
 
+def long_lived_spec(k):
+    """The k-th A-ASSOCIATE-RQ / -AC of a long-lived process: names nobody in this process has used before, under
+    the DICOM root and under private roots."""
+    from .. import fakedul as fd
+    root = '1.2.840.10008.' if k % 3 else '1.3.6.1.4.1.5962.'
+    ctxs = [(2 * i + 1, '%s5.1.4.1.1.%d.%d' % (root, k, i), ['%s1.2.4.%d' % (root, 1000 + 7 * k + j) for j in range(2)])
+            for i in range(2)]
+    if k % 2:
+        return fd.rq_spec(ctxs)
+    return fd.ac_spec([(cid, 0, tss[0]) for cid, _, tss in ctxs], 16384)
+
+
+def run_long_lived(n):
+    """Codecs are functions of their input however long the process has lived: n PDUs with ~6 fresh names each are
+    round-tripped, then the early ones again."""
+    for k in list(range(n)) + list(range(min(n, 400))) + [n - 1]:
+        spec = long_lived_spec(k)
+        try:
+            roundtrip(spec)
+        except Violation as v:
+            raise Violation(v.key + ':long-lived', v.what + ' [PDU %d of a process that has round-tripped %d PDUs with '
+                            'fresh UIDs before]' % (k, n), {'kind': 'long-lived', 'n': n})
+
+
 def run(ctx):
     warnings.simplefilter('ignore')
+    n_long = 12000 if ctx.thorough else 2500
+    ctx.case(('long-lived', n_long), True, labels=['long-lived-process'], sample={'pdus': n_long, 'fresh names': 6 * n_long})
+    ctx.check(run_long_lived, n_long)
     ctx.rule = ('Hypothesis-generated PDU specs built through the public constructors (7 PDU '
                 'types, variable items in any order, 9 user-information sub-item kinds, boundary '
                 'integers, payloads up to 70000 bytes) plus an enumeration of all 81 ordered '
                 'sub-item adjacencies and 9 last-position cases with 3 value draws each; '
                 'non-trivial = PDU carries >=1 nested item/PDV, or a fixed-format PDU has a '
-                'non-default field; distinct by SHA-1 of the spec')
+                'non-default field; distinct by SHA-1 of the spec; plus one long-lived-process run: 2500 (quick) / 12000 association '
+                'PDUs with ~6 never-seen UIDs each round-tripped in one process, then the early ones again')
     ctx.assumptions = ['AE titles: 0-16 printable ISO-646 chars without backslash/NUL',
                        'UIDs: 0-64 chars of [0-9.]; user-information item total < 64 KiB',
                        'fixed-length sub-items 51H/53H built with their standard item_length 4',
@@ -198,4 +226,7 @@ def run(ctx):
 
 def replay(case):
     warnings.simplefilter('ignore')
+    if case.get('kind') == 'long-lived':
+        run_long_lived(case['n'])
+        return
     roundtrip(case['spec'])
